@@ -44,7 +44,7 @@ def scen(r, i, th=None):
     elif fam == "urgent":
         add(t)
         add(t + 10)
-        add(t + 25, prio="urgent", verdict=r.choice(["pass", "reject"]))
+        add(t + 25, prio="urgent", verdict=r.choice(["pass", "reject", "err", "err"]))
         add(t + 30)
     elif fam == "slow_handler":
         handler["durations_ms"] = [r.choice([120, 200]), 0, 0]
